@@ -299,6 +299,8 @@ func (e *Engine) directive(h *Harness, sp *ssa.Package, line string) error {
 		h.needTier, _ = strconv.Atoi(a)
 	case "ifconv":
 		h.ifconv = true
+	case "fresh":
+		h.fresh = true
 	case "bound":
 		h.bounds = append(h.bounds, strings.TrimSpace(strings.TrimPrefix(line[3:], "bound")))
 	case "outside":
